@@ -623,6 +623,10 @@ impl GlobalVmState {
         thread: &Thread,
         f: CompiledModule,
     ) -> Result<OpaqueValue<RootedThread, GcPtr<ClosureData>>> {
+        #[cfg(gluon_verif)]
+        crate::verif::sched_point("new_global_thunk.gc", &self.gc as *const _ as usize, &|| {
+            !matches!(self.gc.try_lock(), Err(std::sync::TryLockError::WouldBlock))
+        });
         let mut gc = self.gc.lock().unwrap();
         let env = self.get_env(thread);
         let mut interner = self.interner.write().unwrap();
@@ -710,6 +714,10 @@ impl GlobalVmState {
     }
 
     pub fn intern(&self, s: &str) -> Result<InternedStr> {
+        #[cfg(gluon_verif)]
+        crate::verif::sched_point("intern.gc", &self.gc as *const _ as usize, &|| {
+            !matches!(self.gc.try_lock(), Err(std::sync::TryLockError::WouldBlock))
+        });
         let mut gc = self.gc.lock().unwrap();
         let mut interner = self.interner.write().unwrap();
         interner.intern(&mut *gc, s)
